@@ -5,24 +5,26 @@ import json, os, subprocess, sys
 
 ROOT = os.path.dirname(os.path.dirname(os.path.abspath(__file__)))
 
-# property id -> (claimed?, technique, level text, level note, design ref)   or (False, reason)
-CLAIMS = {
-    "C20": (True,
-            "guard dominance over go/cfg + boolean implication of branch outcomes, same-package call summaries, who-may-write enumeration over go/types",
-            "Decides, on every control-flow path of every exported host callback of package contract (51 entry points) and of the helpers they call, that each state-mutating call (storage, balance, nonce, code, events, governance, writable SQL handle) is dominated by the read-only guard; plus closed writer sets for the read-only markers and the constructor used by the read-only entry points. The property is itself a statement about all paths of all host entry points, which is exactly what the rule enumerates; the tests cannot link package contract here at all.",
-            "Trusted: go/types, go/cfg (x/tools v0.29.0), the frozen mutator table (cross-checked against role discovery of state writers on every run). Not decided: LuaJIT and SQLite behaviour, value-level equality of roots. Calls through C back into Go are separate entry points.",
-            "DESIGN.md section 4, C20"),
-    "C04": (True,
-            "gate dominance over go/cfg (success edges of validation calls), ordering abstraction of comparison operators (trichotomy), value provenance of verifier operands",
-            "Decides that in the transaction executor every execution or state-writing call is dominated by the success edges of the verified-account comparison, tx.Validate(chain id hash of the block) and tx.ValidateWithSenderState; that the nonce guard rejects both strict orderings of (state nonce+1, tx nonce) and accepts equality, and the stored nonce is the compared field; that Validate compares chain-id hash and recomputed tx hash before its type switch; that every accepting return of the pool-side and block-side signature verifiers is dominated by a successful ECDSA verification over the sign-less digest with the sender's key (or the documented mempool-hit shortcut, whose pool-entry gate is checked), and that a received block is rewarded/committed only after the signature wait succeeded. These are all-paths facts about the real functions, including packages that cannot be linked or tested in this environment.",
-            "Trusted: go/types, go/cfg. Not decided: ECDSA itself, nonce sequences along reorganisation histories, pool/chain interplay over time.",
-            "DESIGN.md section 4, C04"),
-}
+# claims live in tools/claims/<id>.json: {"technique","text","note","design_ref"};
+# tools/claims/<id>.na contains the one-line reason of a property that is not claimed.
+def load_claims():
+    out = {}
+    d = os.path.join(ROOT, "tools", "claims")
+    for fn in sorted(os.listdir(d)):
+        pid, ext = os.path.splitext(fn)
+        if ext == ".json":
+            j = json.load(open(os.path.join(d, fn)))
+            out[pid] = (True, j["technique"], j["text"], j["note"], j["design_ref"])
+        elif ext == ".na":
+            out[pid] = (False, open(os.path.join(d, fn)).read().strip())
+    return out
+
 
 NOT_YET = "check not built yet (work in progress, see DESIGN.md section 4 for the planned structural clause)"
 
 
 def main():
+    CLAIMS = load_claims()
     props = [json.loads(l) for l in open(os.path.join(ROOT, "properties.jsonl"))]
     checks, na = [], []
     for p in props:
